@@ -69,26 +69,34 @@ func (r *UnboundedRing[T]) IsClosed() bool {
 }
 
 func (r *UnboundedRing[T]) run() {
-	for {
+	// the context is watched outside of the pump loop: when it is cancelled the pump may be parked in
+	// cond.Wait or busy sending, Close wakes it up and it then drains the ring and closes the channel
+	// (polling ctx.Done() inside the loop spun forever once the context was cancelled and never
+	// reached the draining branch, and a pump parked in cond.Wait never saw the cancellation)
+	stop := make(chan struct{})
+	defer close(stop)
+	go func() {
 		select {
 		case <-r.ctx.Done():
 			r.Close()
-		default:
-			r.rw.Lock()
-			if r.ring.IsEmpty() {
-				if r.closed { // 如果已关闭并且没有数据，则关闭通道
-					close(r.ch)
-					r.rw.Unlock()
-					return
-				}
-				// 等待数据
-				r.cond.Wait()
+		case <-stop:
+		}
+	}()
+	for {
+		r.rw.Lock()
+		if r.ring.IsEmpty() {
+			if r.closed { // 如果已关闭并且没有数据，则关闭通道
+				close(r.ch)
+				r.rw.Unlock()
+				return
 			}
-			vs := r.ring.ReadAll()
-			r.rw.Unlock()
-			for _, v := range vs {
-				r.ch <- v
-			}
+			// 等待数据
+			r.cond.Wait()
+		}
+		vs := r.ring.ReadAll()
+		r.rw.Unlock()
+		for _, v := range vs {
+			r.ch <- v
 		}
 	}
 }
